@@ -627,3 +627,44 @@ def has_rect_batch_repeat(term):
         walk(term)
         _RECT_MEMO[key] = found
     return _RECT_MEMO[key]
+
+
+def catalogue_uniform(N=6):
+    """Every class as an N x N operator (N = 2 * n) so that any two heads can be combined."""
+    n = N // 2
+    P = D(N, kind="psd")
+    K = ["Kron", {}, D(2, kind="psd"), D(n, kind="psd")]
+    cat = {
+        "Dense": D(N), "DensePSD": P, "User": ["User", {"n": N}],
+        "Diag": ["Diag", {"n": N}], "DiagMixed": ["Diag", {"n": N, "kind": "int"}],
+        "ConstDiag": ["ConstDiag", {"n": N}], "Identity": ["Identity", {"n": N}], "Zero": ["Zero", {"n": N}],
+        "Toeplitz": ["Toeplitz", {"n": N}],
+        "TriL": ["TriT", {"n": N, "upper": False}], "TriU": ["TriT", {"n": N, "upper": True}],
+        "CholL": ["Chol", {"upper": False}, ["TriT", {"n": N, "upper": False}]],
+        "CholU": ["Chol", {"upper": True}, ["TriT", {"n": N, "upper": True}]],
+        "Root": ["Root", {}, D(N, 2)], "RootSq": ["Root", {}, D(N)], "LowRankRoot": ["LowRankRoot", {}, D(N, 2)],
+        "Kron": K, "KronGen": ["Kron", {}, D(2), D(n)],
+        "KronTriL": ["KronTri", {"upper": False}, ["TriT", {"n": 2}], ["TriT", {"n": n}]],
+        "KronDiag": ["KronDiag", {}, ["Diag", {"n": 2}], ["Diag", {"n": n}]],
+        "AddedDiag": ["AddedDiag", {}, P, ["Diag", {"n": N}]],
+        "AddedDiagConst": ["AddedDiag", {}, P, ["ConstDiag", {"n": N}]],
+        "KronAddedDiagConst": ["KronAddedDiag", {}, K, ["ConstDiag", {"n": N}]],
+        "KronAddedDiag": ["KronAddedDiag", {}, K, ["Diag", {"n": N}]],
+        "KronAddedKronDiag": ["KronAddedDiag", {}, K, ["KronDiag", {}, ["Diag", {"n": 2}], ["Diag", {"n": n}]]],
+        "SumKron": ["SumKron", {}, K, ["Kron", {}, D(2, kind="psd"), D(n, kind="psd")]],
+        "LowRankRootAddedDiag": ["LowRankRootAddedDiag", {}, ["LowRankRoot", {}, D(N, 2)], ["Diag", {"n": N}]],
+        "Sum": ["Sum", {}, D(N), ["Toeplitz", {"n": N}]], "PsdSum": ["PsdSum", {}, P, ["Toeplitz", {"n": N}]],
+        "Matmul": ["Matmul", {}, D(N, 2), D(2, N)], "Mul": ["Mul", {}, P, ["Toeplitz", {"n": N}]],
+        "ConstMul": ["ConstMul", {"c": "pos"}, P], "ConstMulNeg": ["ConstMul", {"c": "neg"}, P],
+        "BlockDiag": ["BlockDiag", {"k": 2}, D(n, kind="psd")], "BlockInterleaved": ["BlockInterleaved", {"k": 2}, D(n, kind="psd")],
+        "SumBatch": ["SumBatch", {"k": 2}, P], "BatchRepeat": ["BatchRepeat", {"r": 2}, P],
+        "CatRows": ["Cat", {"dim": -2}, D(2, N), D(N - 2, N)],
+        "Interp": ["Interp", {"mode": "general", "m": N, "n": N}, D(n + 1, kind="psd")],
+        "InterpSym": ["Interp", {"mode": "sym", "m": N}, D(n + 1, kind="psd")],
+        "Masked": ["Masked", {"same": True}, D(N + 1, kind="psd")],
+        "KernelLinSym": ["Kernel", {"fn": "linear", "n": N, "sym": True}], "KernelRBF": ["Kernel", {"fn": "rbf", "n": N, "sym": True}],
+        "KernelMultiSym": ["Kernel", {"fn": "multi", "n": n, "sym": True}],
+        "KeOps": ["KeOps", {"n": N, "m": N}],
+        "Perm": ["Perm", {"n": N}],
+    }
+    return cat
